@@ -93,6 +93,12 @@ def plan_c05(rng, pairs):
     cases = []
     for idx, (fam, a, b) in enumerate(pairs):
         a, b = closed(a), closed(b)
+        if fam in gen.EXACT_FAMILIES and rng.random() < 0.25:
+            # the same pair at a very different scale (exact: a power of two): the four results must stay
+            # consistent whatever the absolute size of the coordinates
+            f = Fraction(2) ** rng.choice([-70, -60, -50, 40, 60])
+            a = gen.map_mpoly(a, lambda p: (p[0] * f, p[1] * f))
+            b = gen.map_mpoly(b, lambda p: (p[0] * f, p[1] * f))
         tol = tol_for(fam, a, b)
         t = num.enc(tol)
         c = Case("C05-%s-%d" % (fam, idx), fam)
